@@ -1,4 +1,5 @@
 import VerylModel.Driver.Store
+import VerylModel.Driver.CombLoop
 import VerylModel.Driver.Pretty
 import VerylModel.Driver.IdCodec
 import VerylModel.Driver.Register
@@ -8,10 +9,19 @@ import VerylModel.Driver.Incr
 import VerylModel.Driver.Svlv
 import VerylModel.Driver.Random
 import VerylModel.Driver.Words
+import VerylModel.Driver.Resolve
+import VerylModel.Driver.Paths
+import VerylModel.Driver.CheckModes
+import VerylModel.Driver.Value
+import VerylModel.Driver.LL
+import VerylModel.Driver.Cdc
+import VerylModel.Driver.Assign
+import VerylModel.Driver.FS
 
 def main (args : List String) : IO UInt32 := do
   match args with
   | ["store"] => VerylModel.Driver.Store.run; return 0
+  | ["combloop"] => VerylModel.Driver.CombLoop.run; return 0
   | ["pretty"] => VerylModel.Driver.Pretty.run; return 0
   | ["fragment"] => VerylModel.Driver.IdCodec.run; return 0
   | ["order"] => VerylModel.Driver.Register.run; return 0
@@ -22,4 +32,14 @@ def main (args : List String) : IO UInt32 := do
   | ["cosim"] => VerylModel.Driver.Svlv.run; return 0
   | ["random"] => VerylModel.Driver.Random.run; return 0
   | ["words"] => VerylModel.Driver.Words.run; return 0
+  | ["resolve"] => VerylModel.Driver.Resolve.run; return 0
+  | ["paths"] => VerylModel.Driver.Paths.run; return 0
+  | ["checkmodes"] => VerylModel.Driver.CheckModes.run; return 0
+  | ["value"] => VerylModel.Driver.Value.run; return 0
+  | ["valueref"] => VerylModel.Driver.Value.runRef; return 0
+  | ["ll"] => VerylModel.Driver.LL.run; return 0
+  | ["cdc"] => VerylModel.Driver.Cdc.run; return 0
+  | ["assign"] => VerylModel.Driver.Assign.run; return 0
+  | ["assignref"] => VerylModel.Driver.Assign.runRef; return 0
+  | ["fs"] => VerylModel.Driver.FS.run; return 0
   | _ => IO.eprintln s!"vmodel: unknown domain {args}"; return 2
